@@ -46,6 +46,13 @@ func New(h gen.History) (*Runner, error) {
 		cleanup()
 		return nil, err
 	}
+	if h.FirstNodeId > 0 {
+		if err := s.PresetNextNodeId(h.FirstNodeId); err != nil {
+			s.Close()
+			cleanup()
+			return nil, err
+		}
+	}
 	r.S = s
 	r.M = model.NewCollection(h.Schema, h.MaxPointSize)
 	r.base = runtime.NumGoroutine()
